@@ -41,7 +41,10 @@ const CHARS: &[char] = &[
 ];
 /// characters whose bytes are all >= 64 (never in a SmallCharSet)
 const HIGH: &[char] = &['a', 'z', 'A', '@', '_', '~', '\u{7f}', 'é', '¿', 'ÿ', '漢', '\u{FFFF}', '😁', '\u{13F}'];
-const LENS: &[usize] = &[7, 8, 9, 15, 16, 17, 23, 24, 31, 32, 33, 47, 63, 64, 65, 71, 72, 73, 79, 80, 127, 128, 129, 255, 256, 257];
+const LENS: &[usize] = &[
+    7, 8, 9, 15, 16, 17, 23, 24, 31, 32, 33, 47, 63, 64, 65, 71, 72, 73, 79, 80, 127, 128, 129, 255, 256, 257, 1022, 1023, 1024, 4093, 4094, 4095,
+    4096, 4097, 8190, 8191, 8192, 16383, 65534, 65535, 65536,
+];
 
 fn gen_string(s: &mut Src, maxlen: usize) -> String {
     // sometimes a fragment of a keyword so that eat() can match across buffers
